@@ -41,7 +41,8 @@ func SplitOnUniqueMaterials(m modeling.Mesh) []modeling.Mesh {
 
 	orinalIndices := m.Indices()
 	for triStart := 0; triStart < orinalIndices.Len(); triStart += 3 {
-		if originalMaterials[curMatIndex].PrimitiveCount+trisFromOtherMats <= triStart/3 {
+		// Loop: the next material can be one without any triangles
+		for originalMaterials[curMatIndex].PrimitiveCount+trisFromOtherMats <= triStart/3 {
 			trisFromOtherMats += originalMaterials[curMatIndex].PrimitiveCount
 			curMatIndex++
 			if _, ok := workingMeshes[originalMaterials[curMatIndex].Material]; !ok {
